@@ -50,11 +50,25 @@ def _battery(c, G, g, names, idx):
     out["placement_unchanged"] = common.div_to_list(G, pl) == c["P"]
     k, S = enhanced_dhar_gonality_test(g, names[c["q"]], c["qmax"])
     out["persink"] = [k, sorted(sorted(idx[x] for x in s) for s in S)]
+    # the per-sink object used directly: single strategy tests and a batch (with its cache: the same strategy asked again, in another order of names)
+    from chipfiring.CFGonalityDhar import GonalityDharAlgorithm, batch_gonality_analysis
+    n = G["n"]; alg = GonalityDharAlgorithm(g, CFDivisor(g, [(x, 0) for x in names]), names[c["q"]])
+    st = [names[i] for i in range(n) for _ in range(c["P"][i])]; alt = [names[(c["v"] + j) % n] for j in range(min(2, n))]
+    out["ps_single"] = bool(alg.test_strategy(list(st)))
+    out["ps_batch"] = [bool(x) for x in alg.test_strategy_batch([list(alt), list(st), list(reversed(st)), list(alt)])]
+    out["ps_single_again"] = bool(alg.test_strategy(list(reversed(st))))
+    kk = 1 + (c["v"] + c["q"]) % max(1, n)       # a suspected gonality in 1..n
+    vb = CFGonality(g).verify_gonality_bounds(kk); out["verify_bounds"] = [kk, bool(vb[0]), bool(vb[1])]
+    ba = batch_gonality_analysis([(g, names[c["q"]])], c["qmax"]); r0 = list(ba.values())[0]
+    out["ps_analysis"] = [r0["gonality"], sorted(sorted(idx[x] for x in s) for s in r0["minimal_strategies"])]     # (its auxiliary num_edges field is total_valence // 2, i.e. half the edge count: outside C04, noted in DESIGN.md)
     return out
 def model_lines(c):
     g = common.enc_graph(c["G"]); n = c["G"]["n"]; mg = n if c["maxg"] is None else c["maxg"]
     qm = max(0, (n - 1) if c["qmax"] is None else c["qmax"])
-    return [["gon"] + g + [mg, 1], ["gon"] + g + [mg, 0], ["game"] + g + common.enc_list(c["P"]) + [c["v"]], ["strat"] + g + common.enc_list(c["P"]), ["persink"] + g + [c["q"], qm]]
+    alt = [0] * n
+    for j in range(min(2, n)): alt[(c["v"] + j) % n] += 1
+    return [["gon"] + g + [mg, 1], ["gon"] + g + [mg, 0], ["game"] + g + common.enc_list(c["P"]) + [c["v"]], ["strat"] + g + common.enc_list(c["P"]), ["persink"] + g + [c["q"], qm],
+            ["game"] + g + common.enc_list(c["P"]) + [c["q"]], ["game"] + g + common.enc_list(alt) + [c["q"]], ["gon"] + g + [n, 0]]
 def _strats(tok, n):
     k = int(tok[0]); cnt = int(tok[1]); xs = [int(x) for x in tok[2:]]
     return k, [xs[i * n:(i + 1) * n] for i in range(cnt)]
@@ -76,6 +90,13 @@ def judge(c, r, mo):
     if not o["placement_unchanged"]: out.append({"what": "strategy evaluation modified the placement divisor"})
     pk, pS = _strats(mo[4], n); pS = sorted(sorted(v for v in range(n) for _ in range(P[v])) for P in pS)
     if o["persink"] != [pk, pS]: out.append({"what": "enhanced_dhar_gonality_test(q=%d, max=%s) = %s, model %s" % (c["q"], c["qmax"], o["persink"], [pk, pS])})
+    if "ps_single" in o:
+        wP = mo[5][0] == "1"; wA = mo[6][0] == "1"
+        if o["ps_single"] != wP or o["ps_single_again"] != wP: out.append({"what": "GonalityDharAlgorithm.test_strategy(P=%s, q=%d) = %s / %s, winnability of P - q is %s" % (c["P"], c["q"], o["ps_single"], o["ps_single_again"], wP)})
+        if o["ps_batch"] != [wA, wP, wP, wA]: out.append({"what": "test_strategy_batch = %s, expected %s" % (o["ps_batch"], [wA, wP, wP, wA])})
+        gt = int(mo[7][0]); kk = o["verify_bounds"][0]
+        if o["verify_bounds"][1:] != [gt <= kk, kk <= 1 or gt >= kk]: out.append({"what": "verify_gonality_bounds(%d) = %s on a graph of gonality %d (expected %s)" % (kk, o["verify_bounds"][1:], gt, [gt <= kk, kk <= 1 or gt >= kk])})
+        if o["ps_analysis"] != [pk, pS]: out.append({"what": "batch_gonality_analysis = %s, model %s" % (o["ps_analysis"], [pk, pS])})
     return out[:2]
 TWO_STAGE = True
 _ml = model_lines
@@ -92,9 +113,9 @@ def model_lines(c, r):
     return ls
 _j = judge
 def _j2(c, o, mo, tag):
-    out = _j(c, {"ok": o}, mo[:5])
+    out = _j(c, {"ok": o}, mo[:8])
     if not out:
-        for line in mo[5:]:
+        for line in mo[8:]:
             if line[0] != "1": out.append({"what": "a reported winning strategy does not beat every opponent vertex (model strategy test: %s)" % line})
     for x in out: x["what"] = tag + x["what"]
     return out
